@@ -54,7 +54,7 @@ def run(ctx: Ctx) -> None:
     ctx.check(good, "K0", "_k(non-str)", repo.loc("ordereddict", meths.get("_k")), "returns the key itself", f"_k(<int key>) yields {[(o.kind, o.value, o.exc) for o in outs]}")
 
     # K1: keyed operations
-    ctx.rule("K1", "in every keyed operation the key reaches OrderedDict only as _k(key); the superclass result is returned; extra arguments are forwarded", 14)
+    ctx.rule("K1", "in every keyed operation the key reaches OrderedDict only as _k(key); the superclass result is returned; optional arguments are forwarded exactly as given", 18)
     for m in KEYED:
         if m not in meths:
             ctx.finding("K1", f"{m}: override", "mappyfile/ordereddict.py", f"CaseInsensitiveOrderedDict does not override {m}: the inherited method uses the raw key")
@@ -88,6 +88,28 @@ def run(ctx: Ctx) -> None:
             ret_ok = all((o.value is result) or m in ("__setitem__",) for o in outs)
             detail = f"superclass received {[a[0] for a, _ in rec]}, returns {[o.value for o in outs]}"
             ctx.check(ok and fwd and ret_ok, "K1", f"{m}({label})", repo.loc("ordereddict", meths[m]), detail, f"{m}: key reaching OrderedDict is not _k(key), or result/extra arguments not forwarded: {detail}")
+
+    # optional arguments are forwarded exactly as given: none given -> none passed on (pop(key) of an
+    # absent key must raise, so no default may be invented), one given -> that one
+    for m in ("pop", "get", "setdefault"):
+        if m not in meths:
+            continue
+        for extra_n in (0, 1):
+            rec2: list = []
+            res2 = SOpaque("object", "super-result")
+
+            def stub2(fr, self_obj, args, kwargs, _rec=rec2):
+                _rec.append((list(args), dict(kwargs)))
+                return res2
+
+            I5 = e.interp(stubs={f"ext:OrderedDict.{x}": stub2 for x in KEYED}, allow_fork=False)
+            inst = pai.Inst(CI)
+            inst.attrs["default_factory"] = None
+            keyv = SStr.atom("K")
+            given = [SOpaque("object", "given-default")][:extra_n]
+            outs = I5.explore(f"{CI}.{m}", lambda: (inst, [keyv] + given, {}))
+            ok = bool(rec2) and all(a == [keyv.lower()] + given and not k for a, k in rec2) and all(o.kind == "return" and o.value is res2 for o in outs)
+            ctx.check(ok, "K1", f"{m} with {extra_n} optional argument(s)", repo.loc("ordereddict", meths[m]), f"superclass called with {[(a, k) for a, k in rec2]}", f"{m}(key{', default' if extra_n else ''}) calls the superclass with {[(a, k) for a, k in rec2]}: " + ("an argument that was not given is passed on (pop of an absent key returns it instead of raising KeyError)" if not extra_n else "the given argument is not forwarded unchanged"))
 
     # K2: exhaustiveness
     ctx.rule("K2", "every inherited method that can insert a key is overridden with folding or routes through an overridden one (frozen stdlib table)", 7)
